@@ -244,42 +244,22 @@ def coq_bytes(b):
     return T.bytes_(b) if b else "[]"
 
 
-def coq_efile(g):
-    """mkEf k n size segsize segs blocks (blocks[segment][share]).  Literals cost ~5 ms per byte to
-    elaborate, so with k = 1 (every block is the segment) the segments are written once."""
-    segs = T.lst([coq_bytes(s) for s in g.segs])
-    if g.k == 1 and all(g.blocks[i][j] == g.segs[j] for i in range(g.n) for j in range(g.nseg)):
-        return "(let segs := %s in mkEf 1 %s %s %s segs (map (fun s => repeat s %d) segs))" % (segs, T.N(g.n), T.N(g.size), T.N(g.segsize), g.n)
-    blocks = T.lst([T.lst([coq_bytes(g.blocks[i][j]) for i in range(g.n)]) for j in range(g.nseg)])
-    return "(mkEf %s %s %s %s %s %s)" % (T.N(g.k), T.N(g.n), T.N(g.size), T.N(g.segsize), segs, blocks)
-
-
-def preamble_for(name, g):
-    """The genuine file and its trees, computed once per file (normal forms) and shared by all cases."""
-    return ("Definition %(n)s : efile := Eval vm_compute in %(ef)s.\n"
-            "Definition %(n)s_bhts : list (list hs) := Eval vm_compute in map (fun i => sym_g_bht %(n)s (Z.of_nat i)) (seq 0 %(N)d).\n"
-            "Definition %(n)s_sht : list hs := Eval vm_compute in sym_g_sht %(n)s.\n"
-            "Definition %(n)s_cht : list hs := Eval vm_compute in sym_g_cht %(n)s.\n"
-            "Definition %(n)s_cap := Eval vm_compute in sym_g_cap [] %(n)s.\n"
-            "Definition %(n)s_bn (i k : Z) : hs := nth (Z.to_nat k) (nth (Z.to_nat i) %(n)s_bhts []) (HPad 0).\n"
-            "Definition %(n)s_sn (k : Z) : hs := nth (Z.to_nat k) %(n)s_sht (HPad 0).\n"
-            "Definition %(n)s_cn (k : Z) : hs := nth (Z.to_nat k) %(n)s_cht (HPad 0).\n"
-            "Definition %(n)s_ueb : ub := Eval vm_compute in UbOk (sym_g_ueb %(n)s).\n"
-            "Definition %(n)s_blk (i j : Z) : list N := gblock %(n)s i j.\n"
-            "Definition %(n)s_pseg (j : Z) : list N := pad_to %(pad)d (gsegment %(n)s j).\n"
-            ) % {"n": name, "ef": coq_efile(g), "N": g.n, "pad": g.sz["tail_segment_padded"]}
-
-
 class Namer(object):
-    """32-byte value -> Coq term of type hs: the genuine node it equals, else a numbered junk value."""
+    """Names for the byte strings of a case.  The model only ever compares blocks, segments and hashes for
+    equality, so every distinct byte string is replaced by a short unique stand-in (an injective renaming;
+    literals cost ~5 ms per byte to elaborate in Coq):
+      32-byte hash value -> the genuine tree node it equals (F_bn/F_sn/F_cn), else HJunk z
+      block contents     -> [id] with one id per distinct content (genuine blocks first), junk ids above 500000
+      ciphertext segment j -> [100000 + j]"""
 
     def __init__(self, name, g):
+        self.name = name
         self.table = {}
         self.junk = {}
         self.blocks = {}
-        for i in range(g.n):
-            for j in range(g.nseg):
-                self.blocks.setdefault(g.blocks[i][j], "(%s_blk %s %s)" % (name, T.Z(i), T.Z(j)))
+        for j in range(g.nseg):
+            for i in range(g.n):
+                self.blocks.setdefault(g.blocks[i][j], len(self.blocks) + 1)
         for i in range(g.n):
             for idx, h in enumerate(g.bht[i]):
                 self.table.setdefault(h, "(%s_bn %s %s)" % (name, T.Z(i), T.Z(idx)))
@@ -290,7 +270,12 @@ class Namer(object):
             self.table.setdefault(h, "(%s_sn %s)" % (name, T.Z(idx)))
 
     def block(self, b):
-        return self.blocks.get(b) or coq_bytes(b)
+        if b not in self.blocks:
+            self.blocks[b] = 500000 + len(self.blocks)
+        return "[%s]" % T.N(self.blocks[b])
+
+    def segment(self, j):
+        return "[%s]" % T.N(100000 + j)
 
     def __call__(self, h):
         if h in self.table:
@@ -298,6 +283,27 @@ class Namer(object):
         if h not in self.junk:
             self.junk[h] = "(HJunk %s)" % T.Z(len(self.junk) + 1)
         return self.junk[h]
+
+
+def coq_efile(g, namer):
+    """mkEf k n size segsize segs blocks (blocks[segment][share]) over the stand-in names."""
+    segs = T.lst([namer.segment(j) for j in range(g.nseg)])
+    blocks = T.lst([T.lst([namer.block(g.blocks[i][j]) for i in range(g.n)]) for j in range(g.nseg)])
+    return "(mkEf %s %s %s %s %s %s)" % (T.N(g.k), T.N(g.n), T.N(g.size), T.N(g.segsize), segs, blocks)
+
+
+def preamble_for(name, g, namer):
+    """The genuine file and its trees, computed once per file (normal forms) and shared by all cases."""
+    return ("Definition %(n)s : efile := %(ef)s.\n"
+            "Definition %(n)s_bhts : list (list hs) := Eval vm_compute in map (fun i => sym_g_bht %(n)s (Z.of_nat i)) (seq 0 %(N)d).\n"
+            "Definition %(n)s_sht : list hs := Eval vm_compute in sym_g_sht %(n)s.\n"
+            "Definition %(n)s_cht : list hs := Eval vm_compute in sym_g_cht %(n)s.\n"
+            "Definition %(n)s_cap := Eval vm_compute in sym_g_cap [] %(n)s.\n"
+            "Definition %(n)s_bn (i k : Z) : hs := nth (Z.to_nat k) (nth (Z.to_nat i) %(n)s_bhts []) (HPad 0).\n"
+            "Definition %(n)s_sn (k : Z) : hs := nth (Z.to_nat k) %(n)s_sht (HPad 0).\n"
+            "Definition %(n)s_cn (k : Z) : hs := nth (Z.to_nat k) %(n)s_cht (HPad 0).\n"
+            "Definition %(n)s_ueb : ub := Eval vm_compute in UbOk (sym_g_ueb %(n)s).\n"
+            ) % {"n": name, "ef": coq_efile(g, namer), "N": g.n}
 
 
 def field_view(payload, g):
@@ -496,22 +502,22 @@ def targeted_mutations(r, gen, shnum, payload):
 
 def coq_plan(gen, offset, size, name, tries):
     """Model side of one read: planned by C01's read_plan (guess = the downloader's default), served by
-    the validating pipeline from `tries`; result (number of chunks written, completed)."""
+    the validating pipeline from `tries`; result (number of chunks written, error class: 0 = completed)."""
     guess = div_ceil(min(gen.size, 1048576), gen.k) * gen.k
     tr = T.lst(["(%s, %s, (fun _ : nat => @nil Z))" % (T.Z(sn), sh) for sn, sh in tries])
     return ("(match read_plan %s %s %s %s %s with SegDone ws => "
-            "let r := sym_serve (table_dec %s_tbl) %s_cap (sym_node_init %s_cap) ws (fun _ => (%s, @nil Z)) in (N.of_nat (List.length (fst r)), snd r) "
-            "| _ => (999, false) end)" % (T.N(gen.size), T.N(gen.segsize), T.N(guess), T.N(offset), T.opt(T.N(size) if size is not None else None),
+            "let r := sym_serve (table_dec %s_tbl) %s_cap (sym_node_init %s_cap) ws (fun _ => (%s, @nil Z)) in (N.of_nat (List.length (fst r)), res_class (snd r)) "
+            "| _ => (999, 999) end)" % (T.N(gen.size), T.N(gen.segsize), T.N(guess), T.N(offset), T.opt(T.N(size) if size is not None else None),
                                          name, name, name, tr))
 
 
-def decode_table(name, gen, shnums):
-    """What the real decoder returns for the genuine blocks of `shnums` (sorted), per segment: the padded
-    segment (the oracle-side Genuine object checked them against the real zfec)."""
+def decode_table(name, gen, namer, shnums):
+    """What the real decoder returns for the genuine blocks of `shnums` (sorted), per segment: that segment
+    (the oracle-side Genuine object decoded them with the real zfec)."""
     rows = []
     for j in range(gen.nseg):
-        key = T.lst(["(%s, %s_blk %s %s)" % (T.N(i), name, T.Z(i), T.Z(j)) for i in shnums])
-        rows.append("(%s, %s_pseg %s)" % (key, name, T.Z(j)))
+        key = T.lst(["(%s, %s)" % (T.N(i), namer.block(gen.blocks[i][j])) for i in shnums])
+        rows.append("(%s, %s)" % (key, namer.segment(j)))
     return "Definition %s_tbl : list (list (N * list N) * list N) := %s.\n" % (name, T.lst(rows))
 
 
@@ -524,6 +530,15 @@ def coq_check_parallel(ctx, jobs, tag):
         return ctx.coq_check(IMPORTS, terms, preamble=pre, tag="%s%d" % (tag, ix), shard=40)
     with concurrent.futures.ThreadPoolExecutor(max_workers=8) as ex:
         return list(ex.map(one, range(len(jobs))))
+
+
+def error_class(status, err):
+    """The model's verr_class of a read's end: 0 completed, 8 not enough usable shares, 7 ciphertext hash."""
+    if status == "ok":
+        return 0
+    if status in ("hung", "timeout"):
+        return 8            # no share ever delivered anything (C46's subject); the model stops with too few shares
+    return {"NotEnoughSharesError": 8, "NoSharesError": 8, "BadCiphertextHashError": 7}.get(err, 99)
 
 
 def classification(ctx):
@@ -550,7 +565,7 @@ def classification(ctx):
                 ctx.mismatch("uploaded-share-differs-from-recomputed-trees", p, case={"k": k, "n": n, "size": size, "max_segment_size": mss},
                              correspondence="uploaded-share-vs-genuine-model")
             namer = Namer(name, gen)
-            pre = preamble_for(name, gen)
+            pre = preamble_for(name, gen, namer)
             # the uploader's shares, field by field, against the model's genuine share and UEB
             for sh in shares:
                 view = field_view(gen.payloads[sh.shnum], gen)
@@ -577,7 +592,7 @@ def classification(ctx):
             for s in shares:
                 if s not in keep:
                     g.delete_share(s)
-            pre += decode_table(name, gen, [s.shnum for s in keep])
+            pre += decode_table(name, gen, namer, [s.shnum for s in keep])
             muts = targeted_mutations(r, gen, target.shnum, gen.payloads[target.shnum])
             r.shuffle(muts)
             muts = [("intact", gen.payloads[target.shnum])] + muts[:per_file]
@@ -600,9 +615,8 @@ def classification(ctx):
                 ctx.case((fi, label, sz) if label != "intact" else None, kind="single-field:" + kind)
                 if k == 1 or private:
                     tries = [(s.shnum, coq_share(view if s is target else field_view(gen.payloads[s.shnum], gen), gen, name, namer)) for s in keep]
-                    ok = status == "ok"
-                    terms.append("(let r := %s in (fst r =? %s)%%N && Bool.eqb (snd r) %s)" % (
-                        coq_plan(gen, 0, sz, name, tries), T.N(len(chunks)), T.boolean(ok)))
+                    terms.append("(let r := %s in (fst r =? %s)%%N && (snd r =? %s)%%N)" % (
+                        coq_plan(gen, 0, sz, name, tries), T.N(len(chunks)), T.N(error_class(status, err))))
                     info.append(("single-field-corruption-vs-model", case, {"status": status, "error": err, "chunks": len(chunks)}))
                 if len(ctx.samples) < 4 and label != "intact":
                     ctx.sample({"k": k, "n": n, "size": size, "mutation": label, "outcome": err or status, "chunks_before_end": len(chunks)})
@@ -713,7 +727,7 @@ def changing_answers(r, nservers):
 
 def adversarial(ctx):
     from core import grid as G
-    n_cases = ctx.n(260, 3000)
+    n_cases = ctx.n(220, 3000)
     for i in range(n_cases):
         r = ctx.rng("adv", i)
         k = r.choice([1, 1, 2, 2, 3, 3, 4, 5, 7, 10])
@@ -788,7 +802,7 @@ def adversarial(ctx):
                 reads.append(random_ranges(r, size, mss))      # a second read on the same node (cached hash trees, new blocks)
             outcomes = []
             for (off, ln) in reads:
-                status, err, chunks = read_through(g, node, off, ln, timeout=8)
+                status, err, chunks = read_through(g, node, off, ln, timeout=1.5)
                 outcomes.append(err or status)
                 judge(ctx, data, off, ln, status, err, chunks, dict(case, read=[off, ln]), scenario)
             ctx.case((k, n, size, mss, repr(desc), tuple(reads)), kind="adversarial:%s:%s" % (scenario, "ok" if outcomes[-1] == "ok" else "refused"))
